@@ -30,7 +30,11 @@ pub enum Marked {
     Tcp { synack: bool, sport: u16, dport: u16, seq: u32, ack: u32, payload: Hex,
           /// additional flags out of {FIN, URG, ECE, CWR, NS, ACK} (PSH never: PSH+ACK is a data segment)
           #[serde(default)]
-          extra: u16 },
+          extra: u16,
+          /// the 4-tuple is an established connection (handshake and one accepted data segment)
+          /// when the reply-typed segment arrives
+          #[serde(default)]
+          established: bool },
     /// application message with its protocol's reply marker set
     App { base: AppReq, tcp: bool, sport: u16, dport: u16, variant: u8 },
     /// the same, delivered as a later segment of a TCP flow that a valid request of the same
@@ -59,7 +63,7 @@ pub fn case_strategy() -> impl Strategy<Value = Case> {
         let m = prop_oneof![
             1 => prop_oneof![3 => Just(2u16), 1 => (2u16..12), 1 => any::<u16>().prop_map(|o| if o == 1 { 2 } else { o })].prop_map(|op| Marked::Arp { op }),
             2 => (any::<bool>(), any::<u16>(), any::<u16>(), bytes(40)).prop_map(|(na, id, seq, data)| Marked::Icmp { na, id, seq, data }),
-            3 => (any::<bool>(), port(), port(), any::<u32>(), any::<u32>(), prop_oneof![2 => Just(Hex(vec![])), 1 => bytes(40)], prop_oneof![3 => Just(0u16), 2 => prop::sample::select(vec![F_FIN, F_ACK, F_FIN | F_ACK, F_URG, F_ECE, F_CWR, F_NS, F_FIN | F_ACK | F_URG, F_ACK | F_ECE]), 1 => (0u16..512).prop_map(|f| f & !(F_PSH | F_SYN | F_RST))]).prop_map(|(synack, sport, dport, seq, ack, payload, extra)| Marked::Tcp { synack, sport, dport, seq, ack, payload, extra }),
+            3 => (any::<bool>(), port(), port(), any::<u32>(), any::<u32>(), prop_oneof![2 => Just(Hex(vec![])), 1 => bytes(40)], prop_oneof![3 => Just(0u16), 2 => prop::sample::select(vec![F_FIN, F_ACK, F_FIN | F_ACK, F_URG, F_ECE, F_CWR, F_NS, F_FIN | F_ACK | F_URG, F_ACK | F_ECE]), 1 => (0u16..512).prop_map(|f| f & !(F_PSH | F_SYN | F_RST))], any::<bool>()).prop_map(|(synack, sport, dport, seq, ack, payload, extra, established)| Marked::Tcp { synack, sport, dport, seq, ack, payload, extra, established }),
             10 => (markable_app(), any::<bool>(), port(), port(), any::<u8>()).prop_map(|(base, tcp, sport, dport, variant)| Marked::App { base, tcp, sport, dport, variant }),
             4 => (prop_oneof![stun_req_magic_big().prop_map(AppReq::Stun), rpc_call().prop_map(AppReq::Rpc), smb_req().prop_map(AppReq::Smb)], markable_app(), port(), port(), any::<u8>()).prop_map(|(first, base, sport, dport, variant)| Marked::AppLater { first, base, sport, dport, variant }),
         ];
@@ -196,12 +200,25 @@ pub fn check(c: &Case, st: &mut Stats) -> Check {
                 _ => Ok(()),
             }
         }
-        Marked::Tcp { synack, sport, dport, seq, ack, payload, extra } => {
+        Marked::Tcp { synack, sport, dport, seq, ack, payload, extra, established } => {
             st.frames(2);
             let twin = tcp_frame(net, &TcpH::new(*sport, *dport, *seq, 0, F_SYN), &[]);
-            if sut.frame(&twin).reply().is_none() {
-                st.class("trivial:syn-unanswered");
-                return Ok(());
+            let cookie = match sut.frame(&twin) {
+                Out::Reply(r) => decode_reply(&r).ok().and_then(|d| d.tcp().map(|t| t.seq)),
+                _ => None,
+            };
+            let cookie = match cookie {
+                Some(k) => k,
+                None => {
+                    st.class("trivial:syn-unanswered");
+                    return Ok(());
+                }
+            };
+            if *established {
+                let fl = Flow { net: net.clone(), sport: *sport, dport: *dport };
+                let o = sut.frame(&fl.data(seq.wrapping_add(1), cookie.wrapping_add(1), b"GET / HTTP/1.1\r\n\r\n"));
+                st.frames(1);
+                st.class(if o.reply().is_some() { "tcp:on-an-established-connection" } else { "tcp:establishing-data-unanswered" });
             }
             let flags = (if *synack { F_SYN | F_ACK } else { F_RST }) | (*extra & !(F_PSH | F_SYN | F_RST));
             if *extra != 0 {
